@@ -98,9 +98,11 @@ func coerceFloat(v interface{}) interface{} {
 	case uint:
 		return float64(v)
 	case float32:
-		return float64(v)
+		return coerceFloat(float64(v))
 	case float64:
-		return v
+		if !math.IsNaN(v) && !math.IsInf(v, 0) {
+			return v
+		}
 	}
 	return nil
 }
